@@ -29,7 +29,7 @@ def get (v : Vec) (i : Nat) : Option Obj := (v[i]?).join
 def grow (v : Vec) (n : Nat) : Vec := v ++ List.replicate (n - v.length) none
 /-- `v.at(i) = o` (for `i < size`) -/
 def put (v : Vec) (i : Nat) (o : Option Obj) : Vec := v.set i o
-/-- first index holding null, or the size (`addNodeIndex`, :850) -/
+/-- first index holding null, or the size (`addNodeIndex`, :862) -/
 def firstFree : Vec → Nat
   | [] => 0
   | none :: _ => 0
@@ -65,20 +65,20 @@ deriving Repr
 
 namespace Obs
 
-/-- `hasNode(Nref)` (:330): null is never a node -/
+/-- `hasNode(Nref)` (:342): null is never a node -/
 def hasNode (o : Obs) (a : Obj) : Bool := AL.has a o.Ng
 def hasEdge (o : Obs) (e : Obj) : Bool := AL.has e o.Eg
-/-- `getNodeFromGraphid` (:642) -/
+/-- `getNodeFromGraphid` (:654) -/
 def nodeFromGid (o : Obs) (id : Nat) : Option Obj := if id ≥ o.gN.length then none else Vec.get o.gN id
 def edgeFromGid (o : Obs) (id : Nat) : Option Obj := if id ≥ o.gE.length then none else Vec.get o.gE id
-/-- `getNodesFromGraphid` (:656): ids without object are skipped -/
+/-- `getNodesFromGraphid` (:668): ids without object are skipped -/
 def nodesFromGids (o : Obs) (ids : List Nat) : List Obj := ids.filterMap o.nodeFromGid
 def edgesFromGids (o : Obs) (ids : List Nat) : List Obj := ids.filterMap o.edgeFromGid
-/-- `hasNode(NodeIndex)` (:904) -/
+/-- `hasNode(NodeIndex)` (:916) -/
 def hasNodeIdx (o : Obs) (i : Nat) : Bool := decide (i < o.iN.length) && (Vec.get o.iN i).isSome
 def hasEdgeIdx (o : Obs) (i : Nat) : Bool := decide (i < o.iE.length) && (Vec.get o.iE i).isSome
 
-/-- forget the index of an object (deletedNodesUpdate, :1534-1540) -/
+/-- forget the index of an object (deletedNodesUpdate, :1546-1552) -/
 def forgetNodeIndex (o : Obs) (a : Obj) : Obs :=
   match AL.find a o.Ni with
   | some i => { o with iN := Vec.put o.iN i none, Ni := AL.erase a o.Ni }
@@ -88,7 +88,7 @@ def forgetEdgeIndex (o : Obs) (e : Obj) : Obs :=
   | some i => { o with iE := Vec.put o.iE i none, Ei := AL.erase e o.Ei }
   | none => o
 
-/-- `deletedEdgesUpdate` (:1499), one edge id -/
+/-- `deletedEdgesUpdate` (:1511), one edge id -/
 def deletedEdge (o : Obs) (e : Nat) : Obs :=
   if o.gE.length > e then
     match Vec.get o.gE e with
@@ -96,7 +96,7 @@ def deletedEdge (o : Obs) (e : Nat) : Obs :=
     | none => { o with gE := Vec.put o.gE e none }
   else o
 
-/-- `deletedNodesUpdate` (:1525), one node id -/
+/-- `deletedNodesUpdate` (:1538), one node id -/
 def deletedNode (o : Obs) (n : Nat) : Obs :=
   if o.gN.length > n then
     match Vec.get o.gN n with
@@ -120,7 +120,7 @@ def deliver (w : World) : World :=
 def getObs (w : World) (k : Nat) : Option Obs := (w.obs[k]?).join
 def setObs (w : World) (k : Nat) (o : Obs) : World := { w with obs := w.obs.set k (some o) }
 
-/-- `associateNode` (:544) on observer `o` against graph `g` -/
+/-- `associateNode` (:556) on observer `o` against graph `g` -/
 def associateNode (g : G) (o : Obs) (a : Obj) (id : Nat) : Except Kind Obs :=
   if o.hasNode a then .error .bpp
   else if !g.hasNode id then .error .bpp
@@ -129,7 +129,7 @@ def associateNode (g : G) (o : Obs) (a : Obj) (id : Nat) : Except Kind Obs :=
     let gN := Vec.grow o.gN (id + 1)
     .ok { o with gN := Vec.put gN id (some a), Ng := AL.set a id o.Ng }
 
-/-- `associateEdge` (:568) -/
+/-- `associateEdge` (:580) -/
 def associateEdge (g : G) (o : Obs) (x : Obj) (e : Nat) : Except Kind Obs :=
   if o.hasEdge x then .error .bpp
   else if !g.hasEdge e then .error .bpp
@@ -138,7 +138,7 @@ def associateEdge (g : G) (o : Obs) (x : Obj) (e : Nat) : Except Kind Obs :=
     let gE := Vec.grow o.gE (e + 1)
     .ok { o with gE := Vec.put gE e (some x), Eg := AL.set x e o.Eg }
 
-/-- `createNode(Nref)` (:438) -/
+/-- `createNode(Nref)` (:450) -/
 def createNode (w : World) (k : Nat) (a : Obj) : OOut Unit :=
   match w.getObs k with
   | none => .ub
@@ -152,7 +152,7 @@ def createNode (w : World) (k : Nat) (a : Obj) : OOut Unit :=
         | .error kd => .exc kd { w with g := g' }
         | .ok o' => .ok () ({ w with g := g' }.setObs k o')
 
-/-- `link(A, B, E)` (:476); `x = none` is the call without edge object -/
+/-- `link(A, B, E)` (:488); `x = none` is the call without edge object -/
 def link (w : World) (k : Nat) (a b : Obj) (x : Option Obj) : OOut Unit :=
   match w.getObs k with
   | none => .ub
@@ -171,7 +171,7 @@ def link (w : World) (k : Nat) (a b : Obj) (x : Option Obj) : OOut Unit :=
           .ok () ({ w with g := g' }.setObs k o')
     | _, _ => .exc .bpp w
 
-/-- `createNode(origin, newNode, edge)` (:455) -/
+/-- `createNode(origin, newNode, edge)` (:467) -/
 def createNodeFrom (w : World) (k : Nat) (origin a : Obj) (x : Option Obj) : OOut Unit :=
   match w.getObs k with
   | none => .ub
@@ -183,7 +183,7 @@ def createNodeFrom (w : World) (k : Nat) (origin a : Obj) (x : Option Obj) : OOu
       | .ok _ w1 => link w1 k origin a x
       | r => r
 
-/-- `unlink(A, B)` (:505) -/
+/-- `unlink(A, B)` (:517) -/
 def unlink (w : World) (k : Nat) (a b : Obj) : OOut Unit :=
   match w.getObs k with
   | none => .ub
@@ -195,7 +195,7 @@ def unlink (w : World) (k : Nat) (a b : Obj) : OOut Unit :=
       | .ok _ g' => .ok () ({ w with g := g' }.deliver)
     | _, _ => .exc .bpp w
 
-/-- `dissociateNode` (:591) -/
+/-- `dissociateNode` (:603) -/
 def dissociateNodeO (o : Obs) (a : Obj) : Except Kind Obs :=
   match AL.find a o.Ng with
   | none => .error .bpp
@@ -210,7 +210,7 @@ def dissociateEdgeO (o : Obs) (x : Obj) : Except Kind Obs :=
     if e < o.gE.length then .ok { o with gE := Vec.put o.gE e none, Eg := AL.erase x o.Eg }
     else .error .std
 
-/-- `deleteNode(Nref)` (:521) -/
+/-- `deleteNode(Nref)` (:533) -/
 def deleteNode (w : World) (k : Nat) (a : Obj) : OOut Unit :=
   match w.getObs k with
   | none => .ub
@@ -241,7 +241,7 @@ def localOp (w : World) (k : Nat) (f : G → Obs → Except Kind Obs) : OOut Uni
     | .ok o' => .ok () (w.setObs k o')
     | .error kd => .exc kd w
 
-/-- `setNodeIndex` (:796) -/
+/-- `setNodeIndex` (:808) -/
 def setNodeIndexO (o : Obs) (a : Obj) (i : Nat) : Except Kind Obs :=
   if o.hasNodeIdx i then .error .bpp
   else if AL.has a o.Ni then .error .bpp
@@ -256,7 +256,7 @@ def setEdgeIndexO (o : Obs) (x : Obj) (i : Nat) : Except Kind Obs :=
     let iE := if i ≥ o.iE.length then Vec.grow o.iE (i + 1) else o.iE
     .ok { o with iE := Vec.put iE i (some x), Ei := AL.set x i o.Ei }
 
-/-- `addNodeIndex` (:843): first free slot -/
+/-- `addNodeIndex` (:855): first free slot -/
 def addNodeIndexO (o : Obs) (a : Obj) : Except Kind (Nat × Obs) :=
   if AL.has a o.Ni then .error .bpp
   else
@@ -271,7 +271,7 @@ def addEdgeIndexO (o : Obs) (x : Obj) : Except Kind (Nat × Obs) :=
     let iE := if i ≥ o.iE.length then Vec.grow o.iE (i + 1) else o.iE
     .ok (i, { o with iE := Vec.put iE i (some x), Ei := AL.set x i o.Ei })
 
-/-- `setEdgeLinking` (:1482) -/
+/-- `setEdgeLinking` (:1494) -/
 def setEdgeLinkingO (g : G) (o : Obs) (a b x : Obj) : Except Kind Obs :=
   match AL.find a o.Ng with
   | none => .error .bpp
@@ -306,7 +306,7 @@ def copy (w : World) (j k : Nat) : OOut Unit :=
   | none => .ub
   | some o => if j = k || !copyDefined o then .ub else .ok () (w.setObs k (copyObs o))
 
-/-- the destructor (:305): the observer leaves the graph -/
+/-- the destructor (:317): the observer leaves the graph -/
 def drop (w : World) (k : Nat) : World := { w with obs := w.obs.set k none }
 
 /-- a graph-level mutator called directly on `getGraph()`: notifications reach the observers -/
@@ -324,19 +324,19 @@ def nodeQuery (w : World) (o : Obs) (a : Obj) (q : G → Nat → Option (List Na
   | none => none
   | some id => (q w.g id).map (fun l => if edges then o.edgesFromGids l else o.nodesFromGids l)
 
-/-- `getNodes(Eref)` (:1459) -/
+/-- `getNodes(Eref)` (:1471) -/
 def edgeEnds (w : World) (o : Obs) (x : Obj) : Option (Option Obj × Option Obj) :=
   match AL.find x o.Eg with
   | none => none
   | some e => (w.g.getNodes e).map (fun p => (o.nodeFromGid p.1, o.nodeFromGid p.2))
 
-/-- `getEdgeLinking` (:1471): `none` = throws, `some none` = the edge has no object -/
+/-- `getEdgeLinking` (:1483): `none` = throws, `some none` = the edge has no object -/
 def edgeLinking (w : World) (o : Obs) (a b : Obj) : Option (Option Obj) :=
   match AL.find a o.Ng, AL.find b o.Ng with
   | some ia, some ib => (w.g.getEdge ia ib).map o.edgeFromGid
   | _, _ => none
 
-/-- `getAllNodes` (:1300): the non-null slots of `graphidToN_` -/
+/-- `getAllNodes` (:1312): the non-null slots of `graphidToN_` -/
 def allNodeObjs (o : Obs) : List Obj := o.gN.filterMap id
 def allEdgeObjs (o : Obs) : List Obj := o.gE.filterMap id
 
